@@ -65,6 +65,14 @@ def run_property(prop_id: str, tier: str, root: str, seed: int, replay: str | No
     stats = A.repo.stats()
     stats["digest"] = A.repo.digest()
     extra = {}
+    from .cfg import STATS as CFG_STATS
+
+    scope_fns = [A.repo.functions[q] for q in sorted(col.scope_functions) if q in A.repo.functions]
+    col.calls_resolved, col.calls_unresolved = A.count_resolution(scope_fns)
+    col.paths_explored = CFG_STATS["states"]
+    extra["cfg_explorations"] = CFG_STATS["explorations"]
+    extra["cfgs_built"] = CFG_STATS["cfgs_built"]
+    extra["cfg_nodes"] = CFG_STATS["cfg_nodes"]
     selfval = None
     if tier == "thorough" and replay is None and os.environ.get("PYDRA_SA_NO_SELFVAL") != "1":
         from .selftest import run_corpus
